@@ -14,6 +14,7 @@ import (
 	"go.minekube.com/gate/pkg/edition/java/proxy/crypto"
 	"go.minekube.com/gate/pkg/edition/java/proxy/message"
 	"go.minekube.com/gate/pkg/gate/proto"
+	"go.minekube.com/gate/pkg/internal/verifhook"
 	"go.uber.org/atomic"
 )
 
@@ -110,13 +111,16 @@ func (l *loginInboundConn) SendLoginPluginMessage(identifier message.ChannelIden
 		Data:    contents,
 	}
 
+	verifhook.Point("lp.send.id", "id", id)
 	l.mu.Lock()
 	l.outstandingResponses[id] = consumer
 	fired := l.isLoginEventFired
 	if !fired {
 		l.loginMessagesToSend.PushBack(msg)
 	}
+	verifhook.Event("lp.send.reg", "id", id, "fired", fired)
 	l.mu.Unlock()
+	verifhook.Point("lp.send.registered", "id", id, "fired", fired)
 
 	if fired {
 		return l.delegate.WritePacket(msg)
@@ -127,12 +131,14 @@ func (l *loginInboundConn) SendLoginPluginMessage(identifier message.ChannelIden
 func (l *loginInboundConn) handleLoginPluginResponse(res *packet.LoginPluginResponse) (err error) {
 	l.mu.Lock()
 	consumer, ok := l.outstandingResponses[res.ID]
+	verifhook.Event("lp.resp.take", "id", res.ID, "found", ok)
 	if !ok {
 		l.mu.Unlock()
 		return nil
 	}
 	delete(l.outstandingResponses, res.ID)
 	l.mu.Unlock()
+	verifhook.Point("lp.resp.taken", "id", res.ID)
 
 	// Invoke the consumer without the lock held; it may call back into
 	// SendLoginPluginMessage (which also takes the lock).
@@ -144,10 +150,12 @@ func (l *loginInboundConn) handleLoginPluginResponse(res *packet.LoginPluginResp
 
 	// After the consumer ran (it may have queued more messages), fire the
 	// all-handled callback if nothing is outstanding.
+	verifhook.Point("lp.resp.consumed", "id", res.ID)
 	l.mu.Lock()
 	done := len(l.outstandingResponses) == 0
 	onAllMessagesHandled := l.onAllMessagesHandled
 	l.mu.Unlock()
+	verifhook.Point("lp.resp.checked", "id", res.ID, "done", done, "armed", onAllMessagesHandled != nil)
 	if done && onAllMessagesHandled != nil {
 		err = errors.Join(err, onAllMessagesHandled())
 	}
@@ -155,6 +163,7 @@ func (l *loginInboundConn) handleLoginPluginResponse(res *packet.LoginPluginResp
 }
 
 func (l *loginInboundConn) loginEventFired(onAllMessagesHandled func() error) error {
+	verifhook.Point("lp.fired.enter")
 	l.mu.Lock()
 	l.isLoginEventFired = true
 	l.onAllMessagesHandled = onAllMessagesHandled
@@ -163,6 +172,7 @@ func (l *loginInboundConn) loginEventFired(onAllMessagesHandled func() error) er
 		msgs = append(msgs, l.loginMessagesToSend.PopFront())
 	}
 	l.mu.Unlock()
+	verifhook.Point("lp.fired.popped", "n", len(msgs))
 
 	if len(msgs) == 0 {
 		return onAllMessagesHandled()
